@@ -42,6 +42,9 @@ const preamble = `(declare-sort Str 0)
 (declare-fun ssub (Str (_ BitVec 64) (_ BitVec 64)) Str)
 (declare-fun fieldref (Int Int) Int)
 (declare-fun boxref (Int) Int)
+(declare-fun fmt_d ((_ BitVec 64)) Str)
+(declare-fun fmt_du ((_ BitVec 64)) Str)
+(declare-fun fmt_03d ((_ BitVec 64)) Str)
 (declare-fun boxval_Str (Int) Str)
 (declare-fun boxval_Bytes (Int) Bytes)
 (assert (= (slen empty_str) #x0000000000000000))
